@@ -172,6 +172,9 @@ def generate(ctx):
         elif k < 0.98:
             vs = [rng.choice([-2**31, 2**31 - 1, 0, rng.randint(-2**31, 2**31 - 1)]) for _ in range(rng.randint(1, 6))]
             out.append({"t": "vec", "op": "w", "arg": ",".join(map(str, vs))})
+            if rng.random() < 0.5:      # a list as the second member of a pair: written into a string that already has content
+                us = [rng.choice([0, 1, 7, 2**32 - 1, 2**32 - 2, rng.randint(0, 2**32 - 1)]) for _ in range(rng.randint(1, 4))]
+                out.append({"t": "pvec", "op": "w", "arg": "%d;%s" % (rng.choice([0, 3, 2**32 - 1]), ",".join(map(str, us)))})
         else:
             # composite TEXTS (model == implementation): elements in every spelling, brackets/parentheses present, missing or unbalanced, separators doubled,
             # trailing or missing, elements out of range or not numeric, junk behind
@@ -240,6 +243,7 @@ def evaluate(ctx, cases):
         if c["t"] in RANGES or c["t"] in ("bool", "char"):
             ok = r.startswith("ok:") and r.split(":")[1] == c["arg"]
         elif c["t"] == "pair": ok = r.startswith("tok2:" + c["arg"] + ":")
+        elif c["t"] == "pvec": ok = r.startswith("tok2:" + c["arg"] + ":")
         else: ok = r.startswith("tok%d:%s:" % (len(c["arg"].split(",")), c["arg"]))
         if not ok: ctx.fail("C16:roundtrip", "value %s of %s is written as text that reads back as %s" % (c["arg"], c["t"], r), c, None)
 
